@@ -96,6 +96,10 @@ def step (s : St) (toks : List String) : St × List String :=
     | some rk, some sw, some hw =>
       if rk = 0 then (s, ["bad-op"]) else ({ win := [], r := rk - 1, sw := sw, hw := hw }, [])
     | _, _, _ => (s, ["bad-op"])
+  | ["agg", "sw", sw] =>
+    match sw.toNat? with
+    | some sw => ({ s with sw := sw }, [])
+    | none => (s, ["bad-op"])
   | ["agg", "adv", now] =>
     match now.toNat? with
     | some now =>
